@@ -31,6 +31,7 @@ type Obligation struct {
 	Seconds float64
 	Output  string
 	SMT     string
+	NoRetry bool
 	Joins   [][]string // case splits licensed by the joins in the path condition (SMT text of each case)
 }
 
